@@ -517,4 +517,86 @@ example : (RePat.mk true false false [some 'x']).search "xa" = true ∧ (RePat.m
     (RePat.mk false true true [some 'x']).search "aX" = true ∧ (RePat.mk false true false [some 'x']).search "xa" = false := by
   decide
 
+/-! ## round h1: find_ with a missing column / filter key, dict filters are `dict.update` -/
+
+/-- **find_<col>, `<col>` is not a column**: `KeyError` whatever the conditions (line 160) -/
+theorem find_missing_col (t : Table) (key : String) (fn : Option (Table → Nat → Except Err Bool))
+    (conds : List (String × Cond)) (h : t.has key = false) : t.find key fn conds = .error .key := by
+  simp [find, h]
+
+/-- **find_<col>, a FILTER key is not a column**: the `KeyError` of `inc` (`inc_missing_key`) is what `find_` raises -/
+theorem find_missing_filter_key (t : Table) (n : Nat) (hr : t.Rect n) (hne : t ≠ []) (key : String)
+    (pre post : List (String × Cond)) (k : String) (c : Cond)
+    (hkey : t.has key = true) (hpre : ∀ kc ∈ pre, t.has kc.1 = true) (hk : t.has k = false) :
+    t.find key Option.none (pre ++ (k, c) :: post) = .error .key := by
+  simp only [find, hkey, Bool.not_true, Bool.false_eq_true, if_false, inc_missing_key t n hr hne pre post k c hpre hk]
+
+/-- one `filters.update` step, looked up -/
+theorem find?_mergeStep (acc : List (String × Cond)) (kc : String × Cond) (k : String) :
+    ((acc.map fun x => if x.1 == kc.1 then kc else x).find? (·.1 == k)) =
+      if kc.1 = k then (if acc.any (·.1 == kc.1) then some kc else Option.none) else acc.find? (·.1 == k) := by
+  induction acc with
+  | nil => by_cases h : kc.1 = k <;> simp [h]
+  | cons x xs ih =>
+    by_cases hx : x.1 = kc.1
+    · by_cases hk : kc.1 = k
+      · simp [hx, hk]
+      · have hxk : ¬ x.1 = k := by rw [hx]; exact hk
+        have h1 : (kc.1 == k) = false := by simpa using hk
+        have h2 : (x.1 == k) = false := by simpa using hxk
+        simp only [List.map_cons, hx, beq_self_eq_true, if_true, List.find?_cons, hk, if_false, h1]
+        rw [ih, if_neg hk]
+    · have hx' : (x.1 == kc.1) = false := by simpa using hx
+      by_cases hxk : x.1 = k
+      · have hk : ¬ kc.1 = k := by intro h; exact hx (hxk.trans h.symm)
+        have h2 : (x.1 == k) = true := by simpa using hxk
+        simp only [List.map_cons, hx', Bool.false_eq_true, if_false, List.find?_cons, h2, if_neg hk]
+      · have h2 : (x.1 == k) = false := by simpa using hxk
+        simp only [List.map_cons, hx', Bool.false_eq_true, if_false, List.find?_cons, h2, List.any_cons, Bool.false_or]
+        exact ih
+
+/-- **dict filters are `dict.update`** (`filters.update(function)` for a dict among the positional arguments): looking a column up in the merged
+conditions gives the DICT's condition when the dict has the key (its last entry, were there several), else the keyword's.  Stated through lookup
+(`find?`), independent of how `mergeConds` folds. -/
+theorem mergeConds_lookup (kw dc : List (String × Cond)) (k : String) :
+    ((mergeConds kw dc).find? (·.1 == k)) =
+      match dc.reverse.find? (·.1 == k) with
+      | some kc => some kc
+      | Option.none => kw.find? (·.1 == k) := by
+  unfold mergeConds
+  induction dc generalizing kw with
+  | nil => simp
+  | cons kc rest ih =>
+    rw [List.foldl_cons, ih, List.reverse_cons, List.find?_append]
+    cases hrest : rest.reverse.find? (·.1 == k) with
+    | some r => simp
+    | none =>
+      simp only [Option.none_or, List.find?_cons, List.find?_nil]
+      by_cases hk : kc.1 = k
+      · have h1 : (kc.1 == k) = true := by simpa using hk
+        rw [h1]
+        simp only
+        split
+        · rename_i hany
+          rw [find?_mergeStep, if_pos hk, if_pos hany]
+        · rename_i hany
+          have hnone : kw.find? (·.1 == k) = Option.none := by
+            rw [List.find?_eq_none]
+            intro x hx hxk
+            apply hany
+            rw [List.any_eq_true]
+            exact ⟨x, hx, by simpa [hk] using hxk⟩
+          rw [List.find?_append, hnone]
+          simp [h1]
+      · have h1 : (kc.1 == k) = false := by simpa using hk
+        rw [h1]
+        simp only
+        split
+        · rw [find?_mergeStep, if_neg hk]
+        · rw [List.find?_append]
+          simp [h1]
+
+example : mergeConds [("a", .isNone), ("b", .isNaN)] [("b", .isNone), ("c", .isNaN), ("b", .oneOf [])] =
+    [("a", .isNone), ("b", .oneOf []), ("c", .isNaN)] := by rfl
+
 end Pyg.Props.C06
